@@ -4,12 +4,13 @@ from checks import proc_common as pc
 ID = "C11"
 LEVEL = "proof"
 MODULE = "NrDaemon.Props.C11"
-PREFIX = ('C11', 'C01 proc: accepted data was neither', 'C01 proc: the final flush', 'C01 proc: more was acknowledged')
+PREFIX = ('C11', 'C01 proc: accepted data was neither', 'C01 proc: the final flush', 'C01 proc: more was acknowledged', 'C12 stop')
 RULE = ("engine proc: the real Processor in lock-step (trackProgress) with a scripted collector client in which every request parks "
         "until answered; histories of 1-3 applications: transactions (real flatbuffers through processBinary/AggregateInto), harvest "
         "triggers with every mask (all, default data, single and combined event categories), replies in any order relative to later "
         "events, restarts, agent queries, clock advances, final CleanExit. Non-trivial = history contains transactions, a trigger and a "
-        "reply; distinct = distinct op lists.")
+        "reply; distinct = distinct op lists. Batch `stop` (engine trig): the real shutdownAppHarvest is called, with ticks of up to six timers in "
+        "flight, on the goroutine that is the only receiver of the harvest channel - it must return at once, and every timer goroutine must be gone after a drain.")
 ASSUMPTIONS = ['run ids issued by the collector are distinct; one outstanding connect attempt per application', 'daemon-generated metrics other than the Seen/Sent/Dropped rows are filtered out of the comparison', 'a harvest trigger for a run that has already been shut down is not generated', "'stuck' is declared by a 2 s watchdog (the call normally takes microseconds)"]
 EXPLANATION = "L2 processor machine in Lean; every request the real processor makes is compared with the model's; the exactly-once ledger Spec runs on the implementation's requests."
 TECHNIQUE = 'Lean 4 theorems about the model of CleanExit (flush complete for every outcome assignment, always returns) + correspondence of CleanExit on the real Processor under a watchdog with scripted final outcomes'
@@ -24,14 +25,41 @@ def plan(ctx):
     from checks.common import corpus
     n = 50 if tier == "quick" else 3000
     seqs = [("sd%d" % i, gen_proc.shutdown_history(rng)) for i in range(n)]
-    return [("corpus", corpus(ID)), ("gen", seqs)]
+    # ending a run while its timers have ticks in flight must not block the processor (else CleanExit never gets its turn):
+    # the real shutdownAppHarvest on the goroutine that is the only receiver of the harvest channel (engine trig, see C12)
+    from checks import C12
+    m = 40 if tier == "quick" else 600
+    stop = []
+    for i in range(m):
+        ops = ["trig new " + C12.reply(rng)]
+        for c in rng.sample(C12.CATS + ["all"], rng.randint(2, 7)):
+            ops.append("trig tick " + c)
+        if rng.random() < 0.5:
+            ops.append("trig recv")
+        ops += ["trig procclose", "trig drain"]
+        stop.append(("stop%d" % i, ops))
+    return [("corpus", corpus(ID)), ("gen", seqs), ("stop", stop)]
 
 
 def run(ctx, bname, seqs):
+    if bname == "stop":
+        from lib import vlib
+        rs = vlib.run_sequences(seqs, ctx["work"], tag=bname)
+        for r in rs:
+            r.spec = [(i, m) for (i, m) in r.spec if m.startswith(PREFIX)]
+        return rs
     return pc.run_proc(ctx, bname, seqs, PREFIX)
 
 
-tags = pc.tags_proc
-nontrivial = pc.nontrivial_proc
+def tags(r):
+    if r.ops and r.ops[0].startswith("trig "):
+        return {"trig:procclose"}
+    return pc.tags_proc(r)
+
+
+def nontrivial(r):
+    if r.ops and r.ops[0].startswith("trig "):
+        return any(il and "holding=" in il and "holding=0" not in il for il in r.impl)
+    return pc.nontrivial_proc(r)
 SHRINK = True
 PIN_PREFIX = 1
